@@ -615,15 +615,15 @@ func concScens(tier string) []concScen {
 
 func concPart(tier string) runner.Part {
 	scs := concScens(tier)
-	pb := 1
+	pb, fb := 1, 1
 	if tier == "thorough" {
-		pb = 2
+		pb, fb = 2, 2
 	}
 	const split = 4
 	return runner.Part{Name: "sched", Shards: len(scs) * split, Run: func(c *runner.Ctx) *runner.Result {
 		res := &runner.Result{Outcomes: map[string]int{}}
 		sc := scs[c.Shard/split]
-		st := vexp.Explore(concScenario(sc, c.Scratch), vexp.Options{PB: pb, FB: 2, DetChecks: 3, Deadline: c.Deadline, Shard: c.Shard % split, Of: split, ShardLevel: 1})
+		st := vexp.Explore(concScenario(sc, c.Scratch), vexp.Options{PB: pb, FB: fb, DetChecks: 3, Deadline: c.Deadline, Shard: c.Shard % split, Of: split, ShardLevel: 1})
 		res.Evaluations, res.States, res.Transitions = st.Executions, int64(st.StateKeys), st.Transitions
 		for o, n := range st.Outcomes {
 			res.Outcomes[sc.Name+": "+o] += n
@@ -652,7 +652,7 @@ func concPart(tier string) runner.Part {
 			}
 			res.Samples = append(res.Samples, map[string]any{"scenario": sc.Name, "executions": st.Executions, "trace_head": t})
 		}
-		res.Extra = map[string]any{"preemption_bound_completed": pb, "free_switch_bound": 2}
+		res.Extra = map[string]any{"preemption_bound_completed": pb, "free_switch_bound": fb}
 		return res
 	}, Replay: func(c *runner.Ctx, raw json.RawMessage) (string, error) {
 		var r struct {
